@@ -143,6 +143,12 @@ func (r *stRec) build(p *STProg) ST {
 		})
 	case "map2":
 		return statet.Map2(r.build(p.P), r.build(p.Q), func(a, b []int) []int { return append(append([]int{}, a...), b...) })
+	case "ap":
+		// the applicative spelling: the function program (P mapped to a curried function) first, then the argument program
+		fn := statet.Map(r.build(p.P), func(a []int) fp.Func1[[]int, []int] {
+			return func(b []int) []int { return append(append([]int{}, a...), b...) }
+		})
+		return statet.Ap(fn, r.build(p.Q))
 	case "seq":
 		ps := make([]ST, len(p.Ps))
 		for i, q := range p.Ps {
@@ -205,7 +211,7 @@ func (r *stRec) build(p *STProg) ST {
 		case "RecoverWith":
 			return inner.RecoverWith(func(err error) ST {
 				log(-1, err)
-				return r.build(&STProg{K: "then", P: &STProg{K: "put", Id: 60, X: 77}, Q: &STProg{K: "pure", Id: 61, X: 902}})
+				return r.build(stRecoveryProg(p.X))
 			})
 		case "RecoverCase":
 			return inner.RecoverCase(isE1, func(err error) []int { log(-1, err); return []int{900} })
@@ -214,7 +220,7 @@ func (r *stRec) build(p *STProg) ST {
 		case "RecoverCaseWith":
 			return inner.RecoverCaseWith(isE1, func(err error) ST {
 				log(-1, err)
-				return r.build(&STProg{K: "then", P: &STProg{K: "put", Id: 60, X: 77}, Q: &STProg{K: "pure", Id: 61, X: 902}})
+				return r.build(stRecoveryProg(p.X))
 			})
 		}
 	}
@@ -265,6 +271,19 @@ func c17Run(out *Out, p *STProg, s0 int) {
 			e = stErrName(res.Failed().Get())
 		}
 		out.Ev("Run", "ok", ok, "v", v, "err", e, "s", s, "steps", rec.tr, "hs", rec.hs)
+		// a StateT value is a description: running the SAME value again, from another state, is an independent run
+		// (nothing - an element source, a memo - may have been used up by the first run)
+		rec.tr, rec.hs = []int{}, []map[string]any{}
+		res2, s2 := st.Run(s0 + 1)
+		ok2, v2, e2 := res2.IsSuccess(), []int{}, "-"
+		if ok2 {
+			if v2 = res2.Get(); v2 == nil {
+				v2 = []int{}
+			}
+		} else {
+			e2 = stErrName(res2.Failed().Get())
+		}
+		out.Ev("Run2", "ok", ok2, "v", v2, "err", e2, "s", s2, "steps", rec.tr, "hs", rec.hs)
 	})
 	out.Ev("End")
 }
@@ -319,7 +338,7 @@ func randST(r *rand.Rand, depth int, id *int) *STProg {
 	case 2:
 		return &STProg{K: "map", P: sub(), F: "inc"}
 	case 3:
-		return &STProg{K: "map2", P: sub(), Q: sub()}
+		return &STProg{K: []string{"map2", "ap"}[r.Intn(2)], P: sub(), Q: sub()}
 	case 4:
 		return &STProg{K: "seq", Ps: subs()}
 	case 5:
@@ -331,6 +350,14 @@ func randST(r *rand.Rand, depth int, id *int) *STProg {
 	default:
 		return &STProg{K: "rec", P: sub(), Var: stVariants[r.Intn(len(stVariants))], X: r.Intn(2)}
 	}
+}
+
+// the program a RecoverWith / RecoverCaseWith handler returns: put 77 then succeed, or (x = 1) put 77 then fail with h
+func stRecoveryProg(x int) *STProg {
+	if x == 1 {
+		return &STProg{K: "then", P: &STProg{K: "put", Id: 60, X: 77}, Q: &STProg{K: "fail", Id: 62, E: "h"}}
+	}
+	return &STProg{K: "then", P: &STProg{K: "put", Id: 60, X: 77}, Q: &STProg{K: "pure", Id: 61, X: 902}}
 }
 
 func cmdC17(args []string) {
